@@ -13,8 +13,10 @@ META = dict(
            "ScipyIVP.la_g_la_gamma_la_c with the exact (Cramer) inverse: equations of motion and g_ddot = 0.  With the fsolve contract of C22 a converged "
            "step bounds |g_i| by the tolerance.  Rattle stage 2 (velocity stage): one real solve() step with stage 1 replaced by an arbitrary result and a MOVING anchor: rows of the recorded "
            "system are the momentum balance and -g_dot(t_{n+1}, q_{n+1}, u_{n+1}).  ScipyIVP also with a motor and a compliance-form spring on a revolute joint "
-           "(concrete configuration, symbolic velocity / torque / stiffness).  Outside: ScipyDAE drift (third-party integrator), DualStormerVerlet "
-           "(MINRES, increment-based stopping), accumulated error over many steps.",
+           "(concrete configuration, symbolic velocity / torque / stiffness).  DualStormerVerlet: the real _step (LU variant) on a point mass with a distance constraint "
+           "to a MOVING anchor, the two fixed-point helpers replaced by their contract (C22): at a fixed point the rows of the step's last linear system are the "
+           "momentum balance with the stored percussion and (2/dt) g(t_{n+1}, q_{n+1}).  Outside: ScipyDAE drift (third-party integrator), DualStormerVerlet's MINRES variants "
+           "(third-party iterative solver), accumulated error over many steps.",
     assumptions=["LU contract: the stubbed linear solve returns x with A x = b (the single trusted implication)", "quaternions nonzero, dt > 0"],
     trusted_base=["LU contract", "Cramer inverse for the ScipyIVP case (nu <= 3)"],
 )
@@ -178,6 +180,108 @@ def rattle_stage2(h, which="distance", seed=0):
         h.eq("constraint rows of the velocity stage = -g_dot(t_{n+1}, q_{n+1}, u_{n+1})", np.atleast_1d(sysm.g_dot(tn1, qn1, out.u[-1])), np.zeros(ng), tol=1e-8)
 
 
+def dsv_setup(h, sysm, tn, qn, un, dt):
+    """real DualStormerVerlet object (LU variant) put into an arbitrary per-step state"""
+    from cardillo.solver import DualStormerVerlet, SolverOptions
+    with h.capture():
+        sol = DualStormerVerlet(sysm, 1.0, 0.125, linear_solver="LU", accelerated=False, options=SolverOptions())
+    sol.dt, sol.tn, sol.qn, sol.un = dt, tn, qn, un
+    sol.Pin = h.vec("Pin", sol.nla)
+    sol.Pi_Nn, sol.Pi_Fn = h.vec("PiN", sol.nla_N), h.vec("PiF", sol.nla_F)
+    for nm in ("sol_t", "sol_q", "sol_u", "sol_la_c", "sol_P_g", "sol_P_gamma", "sol_P_N", "sol_P_F"):
+        setattr(sol, nm, [])
+    return sol
+
+
+def dsv_run_step(h, sol, midpoint_by_evaluation=False, hypothesis="full"):
+    """runs the real _step with the two fixed-point helpers replaced by their contract (C22): the midpoint iteration returns the exact midpoint
+    (q_dot does not depend on q for point masses), the Newton-like iteration returns an ARBITRARY vector z with the hypothesis fun(z) = z"""
+    import cardillo.solver.dual_stormer_verlet as dsv
+    calls = []
+    info = {}
+
+    def fpi(fun, x0, atol=1e-6, rtol=1e-6, max_iter=100, verbose=False):
+        k = len(calls)
+        calls.append(k)
+        if k == 0:
+            if not h.sym:
+                r0 = real[0](fun, x0, atol=atol, rtol=rtol, max_iter=max_iter)
+                info["qm"] = r0[0]
+                return r0
+            if len(x0) % 7 != 0 or midpoint_by_evaluation:
+                info["qm"] = fun(x0.copy())        # q_dot does not depend on q (point masses; no spin): one evaluation is the exact midpoint
+                return info["qm"], 1, 0.0
+            qm = h.vec("qm", len(x0))              # rigid bodies: ARBITRARY midpoint with the hypothesis qm = qn + dt/2 q_dot(tm, qm, un)
+            for b0 in range(0, len(x0), 7):
+                h.assume(qm[b0 + 3:b0 + 7] @ qm[b0 + 3:b0 + 7] > 0, "midpoint quaternion nonzero")
+            out = fun(qm.copy())
+            for i in range(len(qm)):
+                h.assume_eq(out[i], qm[i], "fixed point of the midpoint iteration")
+            info["qm"] = qm
+            return qm, 1, 0.0
+        if hypothesis == "percussions":
+            # hypothesis only on the contact percussions (last nla_N + nla_F entries): P = projection(P) for the velocity iterate carried by z;
+            # identical in the symbolic run and in the float replay (one evaluation of the real closure at z)
+            z = h.vec("z", len(x0))
+            out = fun(z.copy())
+            nx = sol.nu + sol.nla
+            for i in range(nx, len(z)):
+                h.assume_eq(out[i], z[i], "percussions are a fixed point of the projection")
+            return z, 1, 0.0
+        if not h.sym:
+            # replay / cross-check: the real helper iterates to an actual fixed point; a solver model carries the fixed point z it found,
+            # the iteration is then started there (and stops at once if z is one)
+            start = np.array([float(h.model[f"z{i}"]) if not isinstance(h.model[f"z{i}"], str) else float(__import__("fractions").Fraction(h.model[f"z{i}"]))
+                              for i in range(len(x0))]) if all(f"z{i}" in h.model for i in range(len(x0))) else x0
+            return real[0](fun, start, atol=atol, rtol=rtol, max_iter=max_iter)
+        z = h.vec("z", len(x0))
+        out = fun(z.copy())
+        for i in range(len(z)):
+            h.assume_eq(out[i], z[i], "fixed point of the step's iteration")
+        return z, 1, 0.0
+    real = (dsv.fixed_point_iteration, dsv.fixed_point_iteration_with_momentum)
+    dsv.fixed_point_iteration = dsv.fixed_point_iteration_with_momentum = fpi
+    try:
+        with h.capture():
+            sol._step()
+    finally:
+        dsv.fixed_point_iteration, dsv.fixed_point_iteration_with_momentum = real
+    return info
+
+
+def dsv_step(h, which="distance", seed=0):
+    """DualStormerVerlet: at a fixed point of the step's iteration the stored configuration satisfies the position-level constraint (moving anchor)"""
+    sysm, b, j = build(h, which, seed, moving=True)
+    tn, qn, un = _state(h, sysm, b)
+    dt = h.pos("dt")
+    sol = dsv_setup(h, sysm, tn, qn, un, dt)
+    if h.sym:
+        from symx import shims
+        sol.M = shims.SymMat(np.asarray(sol.M.toarray(), dtype=object))
+    info = dsv_run_step(h, sol)
+    tn1 = tn + dt
+    h.eq("stored time is t_n + dt", sol.sol_t[-1], tn1)
+    q1, u1, Pg = sol.sol_q[-1], sol.sol_u[-1], sol.sol_P_g[-1]
+    nu, ng = sysm.nu, sysm.nla_g
+    tm, qm = tn + 0.5 * dt, info["qm"]
+    h.eq("midpoint configuration: q_m = q_n + dt/2 q_dot(t_m, q_m, u_n)", qm, qn + 0.5 * dt * sysm.q_dot(tm, qm, un), tol=(None if h.sym else 1e-5))
+    h.eq("stored configuration: q_{n+1} = q_m + dt/2 u_{n+1}", q1, qm + 0.5 * dt * u1)
+    M = np.asarray(sysm.M(tm, qm).toarray())
+    W = np.asarray(sysm.W_g(tm, qm).toarray())
+    bal = M @ (u1 - un) - 0.5 * dt * (sysm.h(tm, qm, un) + sysm.h(tm, qm, u1)) - W @ Pg
+    if h.sym:
+        # rows of the last linear system of the step at the fixed point (Newton update = 0): A x - b is identically the residual
+        rec = h.lu_log()[-1]
+        res = rec["A"] @ rec["x"] - rec["b"]
+        h.eq("constraint rows of the step's linear system at its fixed point = (2/dt) g(t_{n+1}, q_{n+1})", res[nu:nu + ng],
+             (2 / dt) * np.atleast_1d(sysm.g(tn1, q1)))
+        h.eq("momentum rows of the step's linear system at its fixed point = momentum balance with the stored percussion", res[:nu], bal)
+    else:
+        scale = 1e-4 * max(1.0, float(np.max(np.abs(q1))))
+        h.eq("constraint rows of the step's linear system at its fixed point = (2/dt) g(t_{n+1}, q_{n+1})", np.atleast_1d(sysm.g(tn1, q1)), np.zeros(ng), tol=scale)
+        h.eq("momentum rows of the step's linear system at its fixed point = momentum balance with the stored percussion", bal, np.zeros(nu), tol=scale)
+
+
 def callback(h, which="revolute", seed=0):
     sysm, b, j = build(h, which, seed)
     t, q, u = _state(h, sysm, b)
@@ -244,6 +348,7 @@ def cases(tier, seed):
             cs.append(Case(f"step_callback/{which}", callback, dict(which=which, seed=seed), timeout=T))
     for which in (("distance",) if tier == "quick" else ("distance", "spherical")):
         cs.append(Case(f"rattle_stage2/{which}", rattle_stage2, dict(which=which, seed=seed), timeout=T, hard=T * 8, max_paths=16))
+    cs.append(Case("dual_stormer_verlet_step/distance", dsv_step, dict(which="distance", seed=seed), timeout=T, hard=T * 8, max_paths=16))
     cs.append(Case("scipy_ivp/distance", scipy_ivp, dict(seed=seed), timeout=T))
     cs.append(Case("scipy_ivp/revolute+actuator+compliance", scipy_ivp, dict(seed=seed, forces=True), timeout=T, hard=T * 8))
     return cs
